@@ -2,6 +2,7 @@ package props
 
 import (
 	"fmt"
+	"time"
 
 	"github.com/jotaen/klog/klog"
 	"github.com/jotaen/klog/klog/service/period"
@@ -89,6 +90,18 @@ func runC15(e *core.Env) {
 		}
 		e.Begin(i, []byte(fmt.Sprintf("year %04d", y)))
 		n := c15Year(e, y)
+		if y >= 2008 && y <= 2026 {
+			// the calendar must not depend on the process's local zone: repeat under zones whose local midnight sometimes does not exist
+			saved := time.Local
+			for _, zn := range []string{"America/Santiago", "America/Havana", "Pacific/Apia", "America/Sao_Paulo", "Atlantic/Azores", "America/Asuncion", "Asia/Beirut", "Africa/Cairo"} {
+				if loc, err := time.LoadLocation(zn); err == nil {
+					time.Local = loc
+					n += c15Year(e, y)
+					e.Count("year_blocks_repeated_under_another_local_zone", 1)
+				}
+			}
+			time.Local = saved
+		}
 		e.Evals(n)
 		e.End(i)
 	}
